@@ -381,3 +381,40 @@ def add_snapshots(script, rng):
         if (q[0] in (OPS["GCFULL"], OPS["GCMINOR"]) and rng.random() < 0.5) or rng.random() < 0.03:
             out += [OPS["SNAP"], 0, 0, 0]
     return out
+
+
+def make_variant(dst, vid, src=None):
+    """Write layout variant `vid` (>= 1) of workloads/heapgraph.dora to dst. Deterministic in
+    vid. Same behaviour, other object layout (padding fields in front of / between the
+    reference fields of Node: offsets beyond 127 bytes, other reference maps) and other frame
+    layout of `deep` (0-20 extra reference locals that stay live across the recursive call)."""
+    import os, random
+    src = src or os.path.join(os.path.dirname(os.path.dirname(os.path.abspath(__file__))), "workloads", "heapgraph.dora")
+    rng = random.Random(0x5EED0000 + vid)
+    pads = [rng.choice([0, 0, 3, 14, 17, 40]) for _ in range(3)]
+    if vid % 2 == 1:
+        pads[0] = max(pads[0], 17)          # every reference field beyond offset 127
+    nlive = rng.choice([0, 4, 12, 20]) if vid % 3 else 20
+    out = []
+    ctor = ""
+    for k in range(3):
+        ctor += "".join(", pad%d_%d = %d" % (k, j, 1000 * k + j) for j in range(pads[k]))
+    for line in open(src):
+        st = line.strip()
+        if st.startswith("// PADFIELDS:"):
+            k = int(st.split(":")[1])
+            for j in range(pads[k]):
+                out.append("    pad%d_%d: Int64,\n" % (k, j))
+        elif st == "// LIVE:deep":
+            for j in range(nlive):
+                out.append("    let live%d = if (d + %d) %% 3 == 0 { keep } else { Some[Node](mine) };\n" % (j, j))
+        elif st == "// USE:deep":
+            for j in range(nlive):
+                out.append("    if live%d.is_some() { w.out = w.out + live%d.get_or_panic().id; }\n" % (j, j))
+        else:
+            if "mark = 0)" in line:
+                line = line.replace("mark = 0)", "mark = 0" + ctor + ")")
+            out.append(line)
+    with open(dst, "w") as f:
+        f.writelines(out)
+    return {"pads": pads, "live_locals": nlive}
